@@ -50,6 +50,10 @@ def oracle(program, aux):
     run = Run(program)
     run.run_all()
     run.stats = {'c01_domain': 0}
+    for pr in run.problems:
+        if '/accepted-but-must-refuse/old-path-is-a-symlink' in pr.sig:
+            # the new name would be recorded with the mode of a symbolic link and no target
+            failures.append(('C08/' + pr.sig, 'rr-sl', 'step %d: %s' % (pr.step, pr.msg)))
     img = None if (run.dead or run.problems) else run.write()
     if img is None:
         run.stats['c01_domain'] += 1
@@ -108,6 +112,15 @@ def oracle(program, aux):
                     reloc = 'relocated' if (e.get('susp') or {}).get('re') else ('rr_moved' if any((tree[c].get('susp') or {}).get('re') for c in e['children']) else 'plain')
                     failures.append(('C08/px-links/dir/%s/%s' % (which, reloc), 'rr-px-links',
                                      '%s record of directory %r says %d links, its physical directory implies %d' % (which, p[:80], px['links'], exp)))
+            if which == 'dotdot' and e['type'] == 'dir' and m.generation == 0 and su.get('pl') is None:
+                # '..' describes the parent directory: the same mode as the parent's own '.' record
+                par = tree.get(e['parent']) if e['parent'] else e
+                ppx = ((par or {}).get('dot_su') or {}).get('px')
+                if ppx is not None and ppx['mode'] != px['mode']:
+                    failures.append(('C08/px-mode/dotdot/%s' % ('below-root' if (e['parent'] in ('/', None, '')) else 'deeper'), 'rr-px',
+                                     "'..' record of %r has mode %o, the '.' record of its parent has %o" % (p[:80], px['mode'], ppx['mode'])))
+            if px['mode'] & 0o170000 == 0:
+                failures.append(('C08/px-mode/no-file-type/%s' % which, 'rr-px', '%s record of %r has PX mode %o: no file type' % (which, p[:80], px['mode'])))
             elif e['type'] == 'file' and px['links'] < 1:
                 failures.append(('C08/px-links/file', 'rr-px-links', 'file %r has link count %d' % (p[:80], px['links'])))
     # logical tree and attributes against the model
